@@ -53,6 +53,8 @@ func kernels() []kernel {
 			vars: map[string]string{"len(i.Callbacks)": "ncb", "i.Callbacks == nil": "(ncb < 0)"}, sig: "(ncb : Int) : Bool"},
 		{name: "skipIntervalIsDefault", file: "invalidator.go", recv: "Invalidator", fn: "Invalidate", kind: "ifcond", must: []string{"i.SkipInterval == 0"},
 			vars: map[string]string{"i.SkipInterval": "skipInterval"}, sig: "(skipInterval : Int) : Bool"},
+		{name: "syncDeleteMisses", file: "sync_map.go", recv: "syncMap", fn: "Delete", kind: "ifcond", must: []string{"loaded"}, vars: map[string]string{"loaded": "loaded"}, sig: "(loaded : Bool) : Bool"},
+		{name: "syncDeleteAllCounts", file: "sync_map.go", recv: "syncMap", fn: "DeleteAll", kind: "ifcond", must: []string{"loaded"}, vars: map[string]string{"loaded": "loaded"}, sig: "(loaded : Bool) : Bool"},
 		// constants
 		{name: "shards", file: "sharded_map.go", kind: "constdecl", lhs: "shards", sig: ": Int", unit: "int"},
 		{name: "defaultSkipInterval", file: "invalidator.go", recv: "Invalidator", fn: "Invalidate", kind: "defaultval", lhs: "i.SkipInterval", sig: ": Int", unit: "dur"},
